@@ -5,9 +5,14 @@
 package main
 
 import (
+	"bytes"
 	"encoding/json"
+	"github.com/thushan/olla/internal/config"
+	"github.com/thushan/olla/internal/zz_verif/anth"
+	"github.com/thushan/olla/internal/zz_verif/stack"
 	"os"
 	"sync"
+	"time"
 
 	"github.com/thushan/olla/internal/zz_verif/scen"
 	"github.com/thushan/olla/internal/zz_verif/vlib"
@@ -36,6 +41,51 @@ func mkEP(i int, kind string, r *vlib.Rng, chunked bool, ct string) scen.EPSpec 
 		e.Beh = scen.FaultBeh(names[i], kind, n, k, chunked, ct)
 	}
 	return e
+}
+
+// passthroughBreaks: POST /olla/anthropic/v1/messages, passthrough enabled; endpoint A (vllm: native Anthropic
+// support, higher priority) sends status, headers and part of its native answer and then breaks off; endpoint B
+// (sglang: no native support) would answer. What the client holds must be A's alone.
+func passthroughBreaks(engine, kind string, stream bool) map[string]any {
+	a, b := stack.NewBackend("A"), stack.NewBackend("B")
+	defer a.Close()
+	defer b.Close()
+	a.SetScript(func(_ int, sn *stack.Seen) stack.Behaviour {
+		bh := anth.OKAnswer("A", sn)
+		bh.Kind, bh.K = kind, len(bh.Body)/2
+		if kind == "truncchunk" {
+			bh.Chunked, bh.ChunkSz = true, 16
+		}
+		return bh
+	})
+	b.SetScript(func(_ int, sn *stack.Seen) stack.Behaviour { return anth.OKAnswer("B", sn) })
+	s, err := stack.Start(stack.Opts{Engine: engine, Balancer: "priority", EPs: []stack.EP{{Name: "A", Type: "vllm", Priority: 300, Backend: a}, {Name: "B", Type: "sglang", Priority: 100, Backend: b}},
+		Mutate: func(cfg *config.Config) {
+			cfg.Translators.Anthropic.Enabled = true
+			cfg.Translators.Anthropic.PassthroughEnabled = true
+		}})
+	if err != nil {
+		return map[string]any{"start_err": err.Error()}
+	}
+	defer s.Stop()
+	for _, be := range []*stack.Backend{a, b} {
+		if err := anth.Register(s, be, []string{anth.Model}); err != nil {
+			return map[string]any{"start_err": "register models: " + err.Error()}
+		}
+	}
+	deadline := time.Now().Add(4 * time.Second)
+	for !anth.Routable(s, []*stack.Backend{a, b}, anth.Model) {
+		if time.Now().After(deadline) {
+			return map[string]any{"start_err": "model catalogue did not settle"}
+		}
+		time.Sleep(5 * time.Millisecond)
+	}
+	a.Taken()
+	b.Taken()
+	r := stack.Do(s.Addr, stack.Request("POST", "/olla/anthropic/v1/messages", s.Addr, [][2]string{{"Content-Type", "application/json"}, {"anthropic-version", "2023-06-01"}}, anth.AnthropicBody(anth.Model, stream, "x"), false), 4*time.Second)
+	time.Sleep(30 * time.Millisecond)
+	return map[string]any{"status": r.Status, "err": r.Err, "body_len": len(r.Body), "a_requests": len(a.Taken()), "b_requests": len(b.Taken()),
+		"body_has_b": bytes.Contains(r.Body, []byte("hello from B")), "mode": anth.Header1(r, "X-Olla-Mode")}
 }
 
 func main() {
@@ -168,6 +218,16 @@ func main() {
 		}
 		c.Count(sc.Engine + "." + sc.Profile + ".n" + string(rune('0'+len(sc.EPs))))
 		c.Emit(map[string]any{"kind": "retry", "scenario": sc, "impl": out[i]})
+	}
+	// the same on the Anthropic route in a mixed deployment (passthrough on): the endpoint with native Anthropic support
+	// breaks off after it has begun to answer; the other endpoint (no native support) works
+	for _, engine := range []string{"sherpa", "olla"} {
+		for _, kind := range []string{"body-reset", "hdr-reset", "body-close", "truncchunk"} {
+			for _, stream := range []bool{false, true} {
+				c.Emit(map[string]any{"kind": "xroute", "engine": engine, "fault": kind, "stream": stream, "impl": passthroughBreaks(engine, kind, stream)})
+				c.Count("xroute." + engine)
+			}
+		}
 	}
 	c.Close(map[string]any{"exhaustive": true, "exhaustive_note": "all single and pair assignments of the 13 attempt behaviours per engine (and per profile in thorough); triples exhaustive in thorough, sampled 1/12 in quick"})
 }
